@@ -1,4 +1,5 @@
 import BstreamVerif.Model.HubBurst
+import BstreamVerif.Lemmas.ForkInv
 /-!
 # C05 — resuming from a cursor on the live hub equals never having disconnected
 
@@ -207,5 +208,131 @@ theorem fork_cursor_shape (s : FState) (fuel : Nat) (c : Cur) (h : Blk) (first :
         rw [hb] at hout
         injection hout with hout
         exact ⟨undos, jid, j, back, rfl, hj, hb, hout.symm⟩
+
+/-! ## the burst applied to the consumer at the cursor (cursor on the retained canonical chain)
+
+`B` is the part of the hub's canonical chain above the cursor LIB, split by height into four consecutive zones:
+`B1a` — at or below both the hub LIB and the cursor block (the consumer holds them pending; the hub finalised them);
+`B1b` — at or below the hub LIB, above the cursor block (new to the consumer and already final);
+`B2a` — above the hub LIB, at or below the cursor block (held pending, still reversible);
+`B2b` — above both (new). Heights ascend along the chain, so `B1b` and `B2a` cannot both be non-empty. -/
+
+theorem filterMap_uniform {α β} (f : α → Option β) (g : α → β) (l : List α) (h : ∀ x ∈ l, f x = some (g x)) :
+    l.filterMap f = l.map g := by
+  induction l with
+  | nil => rfl
+  | cons a t ih =>
+    rw [List.filterMap_cons, h a (by simp)]
+    simp only [List.map_cons]
+    rw [ih (fun x hx => h x (by simp [hx]))]
+
+theorem filterMap_none {α β} (f : α → Option β) (l : List α) (h : ∀ x ∈ l, f x = none) : l.filterMap f = [] := by
+  induction l with
+  | nil => rfl
+  | cons a t ih => rw [List.filterMap_cons, h a (by simp)]; exact ih (fun x hx => h x (by simp [hx]))
+
+theorem runSB_newIrrs (lib : Id) (bs : List Blk) (h : linkedBlks lib bs) :
+    (⟨lib, []⟩ : CS).runSB (bs.map (fun b => (Step.newIrreversible, b))) = some ⟨topOf lib (bs.map (·.id)), []⟩ := by
+  induction bs generalizing lib with
+  | nil => rfl
+  | cons b r ih =>
+    simp only [List.map_cons, CS.runSB, CS.apply, List.isEmpty_nil, h.1, beq_self_eq_true, Bool.and_self, if_true,
+      topOf_cons]
+    exact ih b.id h.2
+
+/-- **a New cursor on the hub's canonical chain**: the burst takes the consumer that stood at the cursor (resting on
+    the cursor LIB, holding the canonical blocks up to the cursor block) exactly onto the hub's current chain and final
+    block — the finalised pending blocks are announced oldest first, the blocks the consumer missed are delivered once,
+    in order, and nothing is delivered twice. -/
+theorem burst_takes_consumer_to_hub_chain (s : FState) (h : Blk) (c : Cur) (B1a B1b B2a B2b : List Entry)
+    (hu : isUndo c = false)
+    (z1a : ∀ e ∈ B1a, c.lib.num < e.blk.num ∧ e.blk.num ≤ s.db.libRef.num ∧ e.blk.num ≤ c.block.num)
+    (z1b : ∀ e ∈ B1b, c.lib.num < e.blk.num ∧ e.blk.num ≤ s.db.libRef.num ∧ c.block.num < e.blk.num)
+    (z2a : ∀ e ∈ B2a, c.lib.num < e.blk.num ∧ s.db.libRef.num < e.blk.num ∧ e.blk.num ≤ c.block.num)
+    (z2b : ∀ e ∈ B2b, c.lib.num < e.blk.num ∧ s.db.libRef.num < e.blk.num ∧ c.block.num < e.blk.num)
+    (hzone : B1b = [] ∨ B2a = [])
+    (hlink : linkedBlks c.lib.id ((B1a ++ B1b ++ B2a ++ B2b).map (·.blk))) :
+    (⟨c.lib.id, (B1a ++ B2a).map (·.blk.id)⟩ : CS).run (fastPath s h (B1a ++ B1b ++ B2a ++ B2b) c) =
+      some ⟨topOf c.lib.id ((B1a ++ B1b).map (·.blk.id)), (B2a ++ B2b).map (·.blk.id)⟩ := by
+  have e1a : B1a.filterMap (fastEv s h c) = B1a.map (fun e => wrap e .irreversible h.ref e.blk.ref none) := by
+    apply filterMap_uniform
+    intro e he
+    obtain ⟨g1, g2, g3⟩ := z1a e he
+    unfold fastEv
+    have : ¬ e.blk.num ≤ c.lib.num := by omega
+    have h3 : ¬ e.blk.num > c.block.num := by omega
+    simp [this, g2, hu, h3]
+  have e1b : B1b.filterMap (fastEv s h c) = B1b.map (fun e => wrap e .newIrreversible h.ref e.blk.ref none) := by
+    apply filterMap_uniform
+    intro e he
+    obtain ⟨g1, g2, g3⟩ := z1b e he
+    unfold fastEv
+    have : ¬ e.blk.num ≤ c.lib.num := by omega
+    simp [this, g2, hu, g3]
+  have e2a : B2a.filterMap (fastEv s h c) = [] := by
+    apply filterMap_none
+    intro e he
+    obtain ⟨g1, g2, g3⟩ := z2a e he
+    unfold fastEv
+    have : ¬ e.blk.num ≤ c.lib.num := by omega
+    have h2 : ¬ e.blk.num ≤ s.db.libRef.num := by omega
+    have h3 : ¬ e.blk.num > c.block.num := by omega
+    simp [this, h2, hu, h3]
+  have e2b : B2b.filterMap (fastEv s h c) = B2b.map (fun e => wrap e .new h.ref s.db.libRef none) := by
+    apply filterMap_uniform
+    intro e he
+    obtain ⟨g1, g2, g3⟩ := z2b e he
+    unfold fastEv
+    have : ¬ e.blk.num ≤ c.lib.num := by omega
+    have h2 : ¬ e.blk.num ≤ s.db.libRef.num := by omega
+    simp [this, h2, hu, g3]
+  rw [fastPath_eq, List.filterMap_append, List.filterMap_append, List.filterMap_append, e1a, e1b, e2a, e2b]
+  unfold CS.run
+  simp only [List.append_nil, List.map_append, List.map_map]
+  have m1 : (sbOf ∘ fun e => wrap e Step.irreversible h.ref e.blk.ref none) = (fun e : Entry => (Step.irreversible, e.blk)) := rfl
+  have m2 : (sbOf ∘ fun e => wrap e Step.newIrreversible h.ref e.blk.ref none) = (fun e : Entry => (Step.newIrreversible, e.blk)) := rfl
+  have m3 : (sbOf ∘ fun e => wrap e Step.new h.ref s.db.libRef none) = (fun e : Entry => (Step.new, e.blk)) := rfl
+  rw [m1, m2, m3, runSB_append, runSB_append]
+  have a1 : B1a.map (fun e => (Step.irreversible, e.blk)) = (B1a.map (·.blk)).map (fun b => (Step.irreversible, b)) := by simp
+  have a2 : B1b.map (fun e => (Step.newIrreversible, e.blk)) = (B1b.map (·.blk)).map (fun b => (Step.newIrreversible, b)) := by simp
+  have a3 : B2b.map (fun e => (Step.new, e.blk)) = (B2b.map (·.blk)).map (fun b => (Step.new, b)) := by simp
+  have i1 : (fun (x : Entry) => x.blk.id) = (fun b : Blk => b.id) ∘ (fun x : Entry => x.blk) := rfl
+  -- split the linking of the chain into its four zones
+  simp only [List.map_append] at hlink
+  rw [linkedBlks_append, linkedBlks_append, linkedBlks_append] at hlink
+  obtain ⟨⟨⟨l1a, l1b⟩, l2a⟩, l2b⟩ := hlink
+  have hid : ∀ l : List Entry, (l.map (·.blk)).map (·.id) = l.map (·.blk.id) := by intro l; simp
+  rw [a1]
+  have start : (⟨c.lib.id, B1a.map (·.blk.id) ++ B2a.map (·.blk.id)⟩ : CS) =
+      ⟨c.lib.id, (B1a.map (·.blk)).map (·.id) ++ B2a.map (·.blk.id)⟩ := by rw [hid]
+  rw [start, runSB_irrs]
+  simp only [Option.bind_some]
+  rw [hid]
+  rcases hzone with hz | hz
+  · -- nothing is new-and-final: the consumer keeps its reversible pending blocks and gets the new ones
+    subst hz
+    simp only [List.map_nil, CS.runSB, Option.bind_some, List.append_nil]
+    rw [a3]
+    simp only [List.map_nil, List.append_nil] at l2a l2b
+    have hl : linkedBlks (topOf (topOf c.lib.id (B1a.map (·.blk.id))) (B2a.map (·.blk.id))) (B2b.map (·.blk)) := by
+      have := l2b
+      rw [List.map_append, topOf_append, hid, hid] at this
+      exact this
+    rw [runSB_news _ _ _ hl, hid]
+  · -- the consumer's pending blocks are all final: the missed final blocks arrive new-and-irreversible
+    subst hz
+    simp only [List.map_nil, List.append_nil]
+    rw [a2]
+    have hl1 : linkedBlks (topOf c.lib.id (B1a.map (·.blk.id))) (B1b.map (·.blk)) := by
+      have := l1b; rw [hid] at this; exact this
+    rw [runSB_newIrrs _ _ hl1]
+    simp only [Option.bind_some]
+    rw [a3, hid]
+    have hl2 : linkedBlks (topOf (topOf (topOf c.lib.id (B1a.map (·.blk.id))) (B1b.map (·.blk.id))) []) (B2b.map (·.blk)) := by
+      have := l2b
+      simp only [List.map_nil, List.append_nil, List.map_append] at this
+      rw [topOf_append, hid, hid] at this
+      simpa using this
+    rw [runSB_news _ _ _ hl2, hid, topOf_append]
 
 end BstreamVerif.Props.C05
